@@ -139,6 +139,84 @@ impl Harness for C16 {
     }
 }
 
+/// Which quantity does the stability test compare with the tolerance? (real arithmetic, n = 2, 3, SPD input)
+/// Symbolically: the term the code compares with `tol` must equal the L_2,1 distance recomputed by the harness
+/// (identical term, or proved equal by z3). Natively (replay): for the same matrix, a tolerance below the
+/// recomputed distance must not be accepted.
+pub struct C16Norm {
+    pub n: usize,
+}
+impl Harness for C16Norm {
+    fn name(&self) -> String {
+        format!("c16/norm/n={}", self.n)
+    }
+    fn rng_tags(&self) -> usize {
+        64
+    }
+    fn sample_var(&self, name: &str, u: f64) -> f64 {
+        if name == "x59" {
+            return 1e-3 * u;
+        }
+        let p: Vec<&str> = name.split('_').collect();
+        if p.len() == 3 && p[1] == p[2] { self.n as f64 + u } else { u - 0.5 }
+    }
+    fn n_validate(&self) -> usize {
+        1
+    }
+    fn tol(&self) -> f64 {
+        1e-9
+    }
+    fn run<T: Scalar>(&self, out: &mut Outcome<T>) {
+        let n = self.n;
+        let zero = T::rat(0, 1);
+        let mut m: Vec<Vec<T>> = vec![vec![zero; n]; n];
+        for i in 0..n {
+            for j in i..n {
+                let v = T::var(&format!("m_{}_{}", i, j));
+                m[i][j] = v;
+                m[j][i] = v;
+            }
+        }
+        let mut mat = SquareMatrix::new_zeros_from_num(&zero, n);
+        for i in 0..n {
+            for j in 0..n {
+                mat[(i, j)] = m[i][j];
+            }
+        }
+        let tol_t = T::var("x59");
+        out.assume("tol>=0", zero, Rel::Le, tol_t);
+        if T::SYMBOLIC {
+            let res = mat.decompose_for_tropical(&settings(false, false, Some(TOL_TAG as f64 / 9007199254740992.0)));
+            for (k, a) in T::arena_sqrt_args().into_iter().enumerate().take(n) {
+                out.assume(format!("pivot{}>0", k), zero, Rel::Lt, a);
+            }
+            if let Ok(d) = res {
+                let spec = l21_spec(&|i, j| d.inverse[(i, j)], &m, n);
+                // the comparison with the tolerance: the atom one side of which is the tolerance variable
+                let code = T::atom_sides().into_iter().find_map(|(l, r)| if r.sym_id() == tol_t.sym_id() { Some(l) } else if l.sym_id() == tol_t.sym_id() { Some(r) } else { None });
+                match code {
+                    Some(c) => out.prove("the stability test compares |inverse*M - 1|_{2,1} with the tolerance", c, Rel::Eq, spec),
+                    None => out.structural.push("with Some(tol) no comparison with the tolerance is made on an Ok path".into()),
+                }
+            }
+        } else {
+            // native side of the same goal: a tolerance below the recomputed distance must be rejected
+            let mut inconsistent = 0.0;
+            if let Ok(d) = mat.decompose_for_tropical(&settings(false, false, None)) {
+                let dist = l21_spec(&|i, j| d.inverse[(i, j)], &m, n).as_f64().unwrap();
+                if dist.is_finite() && dist > 0.0 {
+                    for f in [0.9, 0.5, 0.1] {
+                        if mat.decompose_for_tropical(&settings(false, false, Some(f * dist))).is_ok() {
+                            inconsistent = 1.0;
+                        }
+                    }
+                }
+            }
+            out.prove("the stability test compares |inverse*M - 1|_{2,1} with the tolerance", T::lit(inconsistent), Rel::Eq, T::lit(0.0));
+        }
+    }
+}
+
 /// through a sample: with the stability test enabled an Ok sample satisfies the documented bound
 pub struct C16Sample {
     pub entry: Entry,
@@ -219,6 +297,9 @@ pub fn run(cfg: &RunCfg) -> PartResult {
     for r in results {
         total.merge(r);
     }
+    let norms: Vec<C16Norm> = vec![C16Norm { n: 2 }, C16Norm { n: 3 }];
+    total.merge(check_harnesses(&norms, cfg));
+    sizes.push(json!({"n": [2, 3], "arith": "real; which term is compared with the tolerance (native replay: tolerances below the recomputed distance must be rejected)", "stability_test": true}));
     let graphs: Vec<serde_json::Value> = vec![];
     let _ = (entries(cfg.tier, false).len(), C16Sample { entry: entries(cfg.tier, false).remove(0), d: 1 }.name());
     total.bounds = json!({
